@@ -61,7 +61,7 @@ BE = 'verilog'
 
 def streams(ck):
   quick = ck.tier == 'quick'
-  return {'clean': 130 if quick else 1500, 'clean_c12': 90 if quick else 1000, 'finding_each': 3 if quick else 12, 'ncycles': 5 if quick else 8,
+  return {'clean': 100 if quick else 1500, 'clean_c12': 66 if quick else 1000, 'finding_each': 3 if quick else 12, 'ncycles': 5 if quick else 8,
           'nstores': 6 if quick else 16, 'batch': 24}
 
 def run(ck):
